@@ -13,6 +13,9 @@ CLAIMED = {
  "C03": ("exploration", E1_TECH,
          "Over explored transaction sets and arrival histories (trusted/untrusted inv or body, local submission, first seen in a block, duplicates, silent peers, re-announcement after confirmation) every delivered transaction matches the independent reference filter, carries the spent outputs of the world model, is delivered as new at most once, reaches both handlers, and every relevant transaction that arrived while the node was stably in sync, was submitted locally or is in a processed block has been delivered.",
          E1_NOTE, "6 C03"),
+ "C04": ("exploration", E1_TECH,
+         "Block transaction counts 1..17, 31, 32, 33 (enumerated by run index; random up to 70 in the thorough tier) with relevant transactions at first/last/odd-leaf/all/random positions, seen before or not: every confirmation notification carries a proof that an independent merkle verifier accepts against the block header, with the true index and depth zero, and the dependency's own verifier agrees on the proof and on tampered variants. Bodies corrupted under an unchanged header (transaction added, dropped, swapped, altered, last duplicated when that changes the root) never enter the chain, are never announced and none of their transactions is delivered.",
+         E1_NOTE, "6 C04"),
  "C05": ("exploration", E1_TECH,
          "For explored k-way and partial outpoint conflicts in all arrival orders and sources, every relevant transaction of a pair that was processed while both were unconfirmed is reported unsafe, and no transaction is reported unsafe without a conflicting transaction having reached the node (also after evictions by confirmed conflicts).",
          E1_NOTE, "6 C05"),
@@ -23,6 +26,12 @@ CLAIMED = {
          "Over explored histories the per-transaction state trajectory never has safe and unsafe together, cancelled implies unsafe, nothing says safe after unsafe/cancelled, at most one unconfirmed safe report; a non-local safe report requires a trusted sighting, the configured delay since first seen and no earlier conflicting arrival; when those hold and the node stays in sync a safe report follows within delay + 30 s.",
          E1_NOTE, "6 C07, App. C"),
  # id: (level, technique, text, note, design_ref)
+ "C11": ("exploration", E1_TECH + "; plus save/load of the unconfirmed-set file with every flag combination",
+         "With a clean Stop and a new node on the same simulated disk inserted at a quiescent point of explored histories: no tracked transaction is delivered as new again, a later confirmation is an update with proof, safe is not repeated and never follows unsafe, a vouched conflict-free transaction becomes safe at first-seen + delay (millisecond first-seen time and trusted flag survive), and GetTx returns the bytes that were sent to handlers for every delivered txid with the external tx service disabled. The unconfirmed file round-trips 0..8 entries with all flag combinations and millisecond times.",
+         E1_NOTE, "6 C11"),
+ "C14": ("exploration", E1_TECH,
+         "From the getdata messages seen on all simulated connections: no second request for a txid inside the three-second window, none after its body arrived and none from stale tracker state after a block containing it was processed; when the asked peer stays silent and another connection that announced the txid inside the window shows activity after it, that connection is asked within 5 s.",
+         E1_NOTE + " Requests caused by a fresh announcement after the transaction was confirmed are not judged (the node keeps no record of confirmed irrelevant transactions).", "6 C14, App. C"),
  "C09": ("exploration",
          "deterministic simulation at the storage seam: reference-model comparison of the real block repository over seeded operation sequences with both delete-missing semantics and injected per-operation disk errors; exhaustive revert-boundary sweep",
          "After every operation of every explored add/revert/save/load/query sequence the real BlockRepository (and Node.GetHeaders) answers exactly like a slice-of-headers model; a revert that fails through an injected disk error leaves all answers unchanged; all revert targets within 2 of each 1000-header boundary and of the tip are enumerated for store sizes around the boundaries, saved and unsaved, under both back-end behaviours.",
